@@ -73,6 +73,7 @@ DEFAULT_CFG = dict(
     scopes=False,      # render start conditions as scopes
     userread=True,     # harness owns reads through YY_INPUT
     userwrap=False,    # %option yywrap with the harness's scripted yywrap()
+    heap=False,        # harness owns yyalloc/yyrealloc/yyfree (allocation ledger, fault injection)
     extra_opts="",     # further %option text
 )
 
@@ -96,6 +97,8 @@ def emit_l(src, cfg):
     if c["flavour"] == "c99":
         hdr.append('%option emit="c99"')
     hdr.append("%option " + " ".join(opts))
+    if c.get("heap"):
+        hdr.append("%option noyyalloc noyyrealloc noyyfree")
     if c["extra_opts"]:
         hdr.append("%option " + c["extra_opts"])
     names = sc_names(src)
@@ -109,9 +112,10 @@ def emit_l(src, cfg):
     out.append("%{")
     out.append("#define VF_NRULES %d" % len(src["rules"]))
     out.append("#define VF_NSC %d" % len(src["scs"]))
-    for f in ("reject", "yymore", "stack", "yylineno", "array", "userread", "userwrap"):
+    for f in ("reject", "yymore", "stack", "yylineno", "array", "userread", "userwrap", "heap"):
         if c[f] and c[f] != "no": out.append("#define VF_%s 1" % f.upper())
     out.append("#define VF_FLAVOUR_%s 1" % c["flavour"].upper())
+    if c.get("yylmax"): out.append("#define YYLMAX %d" % c["yylmax"])
     out.append(top)
     out.append("%}")
     out += render_defs(src, c["posix"])
